@@ -7,8 +7,10 @@ Driver for C05: interprets the scripted-coroutine programs of harness/h_exec.cpp
 Grammar: `case <id> exec <via>` · `a <cid> <act>` (append an act to the script of coroutine cid) ·
 `m <act>` (ordinary code performs the act now; everything that runs until control is back in ordinary code
 is printed as events `<cid>.<pc>@<depth>`) · `end`.
-Acts: `wake:<d|a|r|x>:<ids>` `detach:<d|a|r|x>:<id>` `gather:<d|a>:<ids>` `park` `parkn` `pause` `swap`
-`start:<id>` `call:<id>` `join:<id>` `end` `enter` `leave` `leavex`.  Mode `x` (suspend point destroyed by stack
+Acts: `wake:<d|a|r|x|p>:<ids>` `detach:<d|a|r|x|p>:<id>` `gather:<d|a>:<ids>` `park` `parkn` `parkp` `wakep:<id>`
+`pause` `swap` `start:<id>` `startc:<id>` `spawn:<id>` `call:<id>` `join:<id>` `hop` `hopc` `end` `enter` `leave`
+`leavex`.  Work handed to other threads (`{w`/`{p` ... `}<active>` in the event list) is run whenever ordinary code is
+outside every block, as the harness does.  Mode `x` (suspend point destroyed by stack
 unwinding) and `leavex` (the callback of `install_queue_and_call` throws) are `Mode.discard` / `Act.leave` in the
 model: `~suspend_point` and `trailer::~trailer` do the same work whether or not an exception is in flight.
 -/
@@ -17,20 +19,27 @@ open Cocls Cocls.Proto Cocls.Exec
 def parseIds (s : String) : List Nat :=
   (s.splitOn ",").filterMap (·.toNat?)
 
-def parseMode (s : String) : Mode := if s == "a" then Mode.await else Mode.discard
+def parseMode (s : String) : Mode :=
+  if s == "a" then Mode.await else if s == "p" then Mode.par else Mode.discard
 
 def parseAct (tok : String) : Option Act :=
   match tok.splitOn ":" with
   | ["wake", m, ids] => some (Act.wake (parseIds ids) (parseMode m) false)
   | ["wake", m] => some (Act.wake [] (parseMode m) false)
   | ["detach", m, ids] => some (Act.wake (parseIds ids) (parseMode m) false)
-  | ["gather", m, ids] => some (Act.wake (parseIds ids) (parseMode m) true)
-  | ["gather", m] => some (Act.wake [] (parseMode m) true)
+  | ["gather", m, ids] => some (Act.wake (parseIds ids) (if m == "a" then Mode.await else Mode.discard) true)
+  | ["gather", m] => some (Act.wake [] (if m == "a" then Mode.await else Mode.discard) true)
+  | ["parkp"] => some Act.parkPar
+  | ["wakep", d] => d.toNat?.map Act.wakePar
+  | ["hop"] => some Act.hop
+  | ["hopc"] => some Act.hopCur
+  | ["startc", d] => d.toNat?.map (Act.start · true)     -- async::operator()
+  | ["spawn", d] => d.toNat?.map (Act.start · false)     -- coroutine type with coro_queue::initial_awaiter
   | ["park"] => some Act.park
   | ["parkn"] => some Act.parkNext
   | ["pause"] => some Act.pause
   | ["swap"] => some Act.pause
-  | ["start", d] => d.toNat?.map Act.start
+  | ["start", d] => d.toNat?.map (Act.start · true)
   | ["call", d] => d.toNat?.map Act.call
   | ["join", d] => d.toNat?.map Act.join
   | ["end"] => some Act.fin
@@ -68,19 +77,34 @@ def drain (p : Prog) (s : State) (evs : Array String) : Nat → Prog × State ×
 
 def fuelOf (p : Prog) : Nat := p.scripts.foldl (fun n sc => n + sc.size + 2) 8
 
+/-- the other threads get their turn: every job, oldest first, each to completion (the harness does the same
+whenever ordinary code of the main thread is outside every block) -/
+def runJobs (p : Prog) (s : State) (evs : Array String) : Nat → Prog × State × Array String
+  | 0 => (p, s, evs)
+  | n + 1 =>
+    match s.jobs with
+    | [] => (p, s, evs)
+    | (_, k) :: _ =>
+        if s.cur.isSome || s.active || !s.blocks.isEmpty then (p, s, evs.push "JOB-NOT-IDLE")
+        else
+          let (p, s, e) := drain p (step s Act.job) (evs.push (if k then "{w" else "{p")) (fuelOf p)
+          runJobs p s (e.push ("}" ++ boolStr s.active)) n
+
 def doMain (p : Prog) (s : State) (a : Act) : Prog × State × Array String :=
-  drain p (step s a) #[] (fuelOf p)
+  let (p, s, evs) := drain p (step s a) #[] (fuelOf p)
+  if s.blocks.isEmpty then runJobs p s evs (fuelOf p) else (p, s, evs)
 
 def countSusp (p : Prog) (s : State) : Nat :=
   (List.range p.scripts.size).foldl (fun n c =>
     match s.st c with
     | St.parked => n + 1
+    | St.pparked => n + 1
     | St.waiting _ => n + 1
     | _ => n) 0
 
 def finish (p : Prog) (s : State) : String :=
   let res := (List.range p.scripts.size).map (fun c => toString (s.runs.count c))
-  s!"end a={boolStr s.active} q={s.ready.length} susp={countSusp p s} res={joinWith "," res}"
+  s!"end a={boolStr s.active} b={boolStr (canBlock s)} q={s.ready.length} susp={countSusp p s} res={joinWith "," res}"
 
 /-- close the blocks that are still open (the harness leaves them when it meets `end`) -/
 def closeBlocks (p : Prog) (s : State) (evs : Array String) : Nat → Prog × State × Array String
@@ -100,6 +124,7 @@ partial def loop (lines : Array String) (i : Nat) (st : Option (Prog × State)) 
         loop lines (i+1) (some ({}, init))
     | ["end"], some (p, s) =>
         let (p, s, evs) := closeBlocks p s #[] (s.blocks.length + 1)
+        let (p, s, evs) := runJobs p s evs (fuelOf p)
         IO.println (withEvents (finish p s) evs.toList)
         loop lines (i+1) none
     | ["a", c, tok], some (p, s) =>
@@ -112,7 +137,7 @@ partial def loop (lines : Array String) (i : Nat) (st : Option (Prog × State)) 
         match parseAct tok with
         | some a =>
             let (p, s, evs) := doMain p s a
-            IO.println (withEvents s!"m {tok} a={boolStr s.active}" evs.toList)
+            IO.println (withEvents s!"m {tok} a={boolStr s.active} b={boolStr (canBlock s)}" evs.toList)
             loop lines (i+1) (some (p, s))
         | none => IO.println "bad-op"; loop lines (i+1) st
     | _, some _ => IO.println "bad-op"; loop lines (i+1) st
